@@ -5,6 +5,9 @@ void ok_map__st_map(ep_t p, const uint8_t *msg, size_t len) {
 	fp_t t;
 	fp_read_bin(t, msg, RLC_FP_BYTES);
 	fp_copy(p->x, t);
+	fp_zero(p->y);
+	fp_set_dig(p->z, 1);
+	p->coord = BASIC;
 	ep_upk(p, p);
 	ep_mul_cof(p, p);
 }
@@ -106,4 +109,52 @@ void bad_out_def__untouched__ep9_mul_cof(ep_t r, const ep_t p) {
 			ep_curve_get_cof(k);
 			ep_mul_big(r, p, k);
 	}
+}
+
+/* MAP-DEF: the second component of x keeps what the caller's point held */
+void bad_map_def__component__st_map(ep2_t p, const uint8_t *msg, size_t len) {
+	bn_t x;
+	fp2_t t0;
+	bn_null(x);
+	bn_new(x);
+	bn_read_bin(x, msg, len);
+	fp_prime_conv(p->x[0], x);
+	fp2_set_dig(p->z, 1);
+	ep2_rhs(t0, p->x);
+	fp2_srt(p->y, t0);
+	p->coord = BASIC;
+	ep2_mul_cof(p, p);
+}
+
+void ok_map_def__st_map(ep2_t p, const uint8_t *msg, size_t len) {
+	bn_t x;
+	fp2_t t0;
+	bn_null(x);
+	bn_new(x);
+	bn_read_bin(x, msg, len);
+	fp2_zero(p->x);
+	fp_prime_conv(p->x[0], x);
+	fp2_set_dig(p->z, 1);
+	ep2_rhs(t0, p->x);
+	fp2_srt(p->y, t0);
+	p->coord = BASIC;
+	ep2_mul_cof(p, p);
+}
+
+/* MAP-DEF: the coordinate system is whatever the point had */
+void bad_map_def__coord__st_map(ep_t p, const uint8_t *msg, size_t len) {
+	fp_t t;
+	fp_read_bin(t, msg, RLC_FP_BYTES);
+	fp_copy(p->x, t);
+	fp_sqr(p->y, t);
+	fp_set_dig(p->z, 1);
+	ep_mul_cof(p, p);
+}
+
+/* MAP-HIST: the search for the map parameter continues where the previous curve stopped */
+void bad_map_hist__search(void) {
+	ctx_t *ctx = core_get();
+	do {
+		fp_add_dig(ctx->ep_map_u, ctx->ep_map_u, 1);
+	} while (fp_is_sqr(ctx->ep_map_u));
 }
